@@ -73,6 +73,8 @@ def _hooks(ex, S, ghost, setlocale_may_fail=True):
 
     def setlocale(ex, node, a, kw):
         if len(a) < 2 or isinstance(a[1], VNone):
+            # query: the C library returns the name that restores the current locale when it is passed back (T-LOCALE)
+            ghost.fields['saved_value'] = ghost.fields['loc']
             return ghost.fields['loc']
         req = a[1]
         restoring = isinstance(req, VStr) and req is ghost.fields.get('saved_value')
@@ -199,8 +201,23 @@ def locale_category_case(S, ex):
 CONTRACTS.append(Contract('get_locale_category', 'C19', lambda: collations.get_locale_category, locale_category_case,
                           post=[('locale_on_exit_is_locale_on_entry', "returned and ghost.loc == ghost.loc0")], native=None, expect_min_obligations=1))
 
-TRUSTED = ["T-LOCALE: locale.getlocale(LC_COLLATE) names the current locale and setlocale(LC_COLLATE, that value) restores it without raising; a failing "
-           "setlocale leaves the locale unchanged; threading.Lock is modelled for one thread (ghost counter)"]
+def lc_collate_case(S, ex):
+    ghost = _ghost(S, ex)
+    hooks = _hooks(ex, S, ghost, setlocale_may_fail=False)
+    # `with _locale_collate_lock:` acquires on entry and releases on every exit
+    hooks['_locale_collate_lock.__enter__'] = hooks['_locale_collate_lock.acquire']
+    hooks['_locale_collate_lock.__exit__'] = lambda ex, node, a, kw: (hooks['_locale_collate_lock.release'](ex, node, a, kw), VBool(False))[1]
+    return Case([], hooks=hooks, names={'ghost': ghost})
+
+
+if hasattr(collations, 'get_lc_collate'):
+    CONTRACTS.append(Contract('get_lc_collate', 'C19', lambda: collations.get_lc_collate, lc_collate_case,
+                              post=[('reads_the_locale_in_force_once_the_lock_is_obtained_and_changes_nothing',
+                                     "returned and result == ghost.loc0 and ghost.loc == ghost.loc0 and ghost.lock == 0")], native=None, expect_min_obligations=1))
+
+TRUSTED = ["T-LOCALE: setlocale(LC_COLLATE) without a locale argument returns the name of the current locale and setlocale(LC_COLLATE, that value) restores it "
+           "without raising (the contract of the C library; locale.getlocale, which normalises names and can raise, is modelled the same way where the code "
+           "still uses it); a failing setlocale leaves the locale unchanged; threading.Lock is modelled for one thread (ghost counter)"]
 
 
 # ---- GROUND: audited uses of global-state APIs -----------------------------------------------------------------------------------
@@ -212,6 +229,8 @@ AUDITED = {
     ('elementpath.collations', 'CollationManager.__exit__', 'setlocale'): 'contract __exit__',
     ('elementpath.collations', 'CollationManager.__exit__', '_locale_collate_lock'): 'contract __exit__',
     ('elementpath.xpath2.xpath2_parser', 'XPath2Parser.__init__', 'setlocale'): 'setlocale(LC_COLLATE, None) only queries',
+    ('elementpath.collations', 'get_lc_collate', 'setlocale'): 'contract get_lc_collate',
+    ('elementpath.collations', 'get_lc_collate', '_locale_collate_lock'): 'contract get_lc_collate',
     ('elementpath.xpath30._xpath30_functions', 'evaluate__environment_variable', 'os.environ'): 'read only, gated by allow_environment (bounded check)',
     ('elementpath.xpath30._xpath30_functions', 'evaluate__available_env_vars', 'os.environ'): 'read only, gated by allow_environment (bounded check)',
 }
@@ -293,7 +312,7 @@ def _lock_held():
 
 def _snapshot():
     ctx = decimal.getcontext()
-    return {'lc_collate': locale.getlocale(locale.LC_COLLATE), 'lc_ctype': locale.getlocale(locale.LC_CTYPE),
+    return {'lc_collate': locale.setlocale(locale.LC_COLLATE, None), 'lc_ctype': locale.setlocale(locale.LC_CTYPE, None),       # the exact names, not normalised
             'lock_held': _lock_held(), 'decimal': (ctx.prec, ctx.rounding, ctx.Emin, ctx.Emax, ctx.capitals, ctx.clamp,
                                                                           tuple(sorted(k.__name__ for k, v in ctx.traps.items() if v))),
             'environ': hash(tuple(sorted(os.environ.items())))}
@@ -462,6 +481,57 @@ def state_preservation(tier, seed):
             bad('a selector gives a different result when run concurrently', expr=exprs[i], sequential=seq[i][:60], got=[r for r in rs if r != seq[i]][0][:60])
     for i, x in errors:
         bad('a selector raises when run concurrently', expr=exprs[i], exc=x)
+    # a result iterator that the caller has not exhausted holds no process-wide state: the locale and the lock are as before between two items
+    usable = [c for c in ('C.UTF-8', 'C.utf8', 'POSIX', 'C') if c != locale.setlocale(locale.LC_COLLATE, None)]
+    for coll in usable[:2]:
+        for expr in (f"index-of(('a', 'b', 'a'), 'a', '{coll}')", f"distinct-values(('a', 'b', 'a'), '{coll}')", f"for $x in ('b', 'a') return compare($x, 'a', '{coll}')",
+                     f"sort(('b', 'a', 'c'), '{coll}')", f"(//b)[contains(., '1', '{coll}')]/string()"):
+            n += 1
+            before = _snapshot()
+            try:
+                it = elementpath.iter_select(root, expr, parser=XPath31Parser)
+                next(it)
+            except ElementPathError:
+                continue
+            except StopIteration:
+                pass
+            mid = _snapshot()
+            other = []
+            th = threading.Thread(target=lambda: other.append(collations._locale_collate_lock.acquire(timeout=2) and (collations._locale_collate_lock.release() or True)), daemon=True)
+            th.start()
+            th.join(5)
+            if mid['lc_collate'] != before['lc_collate'] or other != [True]:
+                bad('a suspended result iterator keeps the changed locale or the collation lock', expr=expr, lc_collate_before=before['lc_collate'],
+                    lc_collate_while_suspended=mid['lc_collate'], lock_free_for_another_thread=other == [True])
+            try:
+                list(it)
+            except ElementPathError:
+                pass
+            del it
+    # a parser built while another thread is inside an evaluation with a locale collation gets the default collation it gets sequentially
+    want_dc = XPath31Parser().default_collation
+    for coll in usable[:2]:
+        n += 1
+        inside, go_on, got_dc = threading.Event(), threading.Event(), []
+
+        def holder():
+            try:
+                with collations.CollationManager(coll):
+                    inside.set()
+                    go_on.wait(3)
+            except ElementPathError:
+                inside.set()
+        ta = threading.Thread(target=holder, daemon=True)
+        ta.start()
+        inside.wait(5)
+        tb = threading.Thread(target=lambda: got_dc.append(XPath31Parser().default_collation), daemon=True)
+        tb.start()
+        tb.join(0.5)
+        go_on.set()
+        ta.join(5)
+        tb.join(5)
+        if got_dc != [want_dc]:
+            bad('a parser built while another thread evaluates with a locale collation gets another default collation', collation_in_flight=coll, got=repr(got_dc)[:90], sequential=want_dc)
     return _result(fam, n)
 
 
